@@ -23,6 +23,9 @@ CLAIMED = {
     "C19": ("Programs of <= 3 calibrations (three levels of nesting; bodies of one to three instructions, one of them a call; shape order non-decreasing in the quick tier): "
             "the returned source map is checked structurally (source order, unmodified entries identical, ranges partition the output, nested records "
             "partition their parent range) and list_sources / list_targets are checked to be inverse at every output index and one past the end. One known finding (hoisted declarations).", TRUST, "5/C19"),
+    "C29": ("All blocks of <= N instructions (quick 3, thorough 4) over one-, two- and three-qubit gates with pairwise distinct solver-chosen qubits from {0,1,2,3}, MEASURE, MOVE, NOP, "
+            "and every threshold (64-bit solver variable): the real QubitGraph::new / path_fold / gate_depth against a dynamic programme over the per-qubit successor relation.",
+            TRUST + "; petgraph Graph modelled as node / edge lists", "5/C29"),
     "C30": ("Two regions, each undeclared or declared BIT/OCTET/INTEGER/REAL, and <= N body instructions (quick 2, thorough 3) from 28 templates (every arithmetic, comparison, "
             "logic, MOVE/EXCHANGE/LOAD/STORE, frame-update and pulse form) with solver-chosen region names: the real type_check against a typing table written from the "
             "statement; the verdict is invariant under reordering, duplication and consistent renaming.", TRUST, "5/C30"),
